@@ -220,7 +220,10 @@ Ambiguous production number prediction
                 break;
             }
         }
-        Ok(result_union.into_inner())
+        let mut result_union = result_union.into_inner();
+        // The united automaton must be able to read the longest lookahead string of both operands
+        result_union.k = std::cmp::max(result_union.k, other.k);
+        Ok(result_union)
     }
 
     fn new_state(&mut self) -> StateIndex {
